@@ -34,7 +34,7 @@ func (c08) CaseTimeout(string) int { return 600 }
 func (c08) Rule() string {
 	return "Synthetic plans = DAGs of fetches; each fetch declares DependsOnFetchIDs and its request template reads one unique value from every dependency's merged result. " +
 		"Case kinds (index space = concatenation of the kinds table, fixed count per tier): " +
-		"l1.exhaustive: one case per (n, edge mask) for n<=4 (thorough n<=5), inside it every fetch-id assignment x every raw order (n=5: 8 seeded raw orders); " +
+		"l1.exhaustive: one case per (n, edge mask) for n<=4 (thorough n<=5, each mask split into 4 blocks of id assignments), inside it every fetch-id assignment x every raw order (n=5: identity, reverse and 2 seeded raw orders); " +
 		"l1.random/l1.nested/l1.entity/l1.dup: seeded random plans up to 14 fetches (random/layered/chains/diamonds/forest/components shapes; nested = fetches hanging under response paths of other fetches, some without declared dependencies; entity = entity/batch-entity fetches on few subgraphs so that same-wave fetches merge into multi fetches; dup = exact duplicate fetches). " +
 		"Every layer-1 plan is post-processed under 10 option sets (waves|scheduler|serial x +-multi-fetch x +-de-duplication) and the tree is checked: every planned fetch exactly once (as itself, as member of a merged request, or via the first fetch of its duplicate class) and every dependency completes before its dependant starts. " +
 		"l2.*: the same plan kinds (plus errors = fetches failing with GraphQL errors or at transport level) executed by the real Resolver/Loader with gated fake subgraphs: all completion orders for n<=4, per parallel group all permutations up to 4 members (seeded beyond), seeded flat priorities, burst (whole wave released at once) and ungated runs; oracles: request content equals the values the dependencies delivered, arrival after merged/release of every dependency on one logical clock, each planned request at most/exactly once, response identical across completion orders (data bytes, errors as multiset). " +
@@ -89,6 +89,31 @@ var (
 	exh5 = exhaustiveCases(5)
 )
 
+// layer 1 splits every 5-node edge mask into l1Parts5 cases (blocks of id assignments) so that
+// the cases of a tier cost about the same (the runner hands out contiguous index ranges).
+const l1Parts5 = 4
+
+type l1ExhCase struct {
+	nm
+	part, parts int
+}
+
+func l1ExhCases(tier string) []l1ExhCase {
+	var out []l1ExhCase
+	for _, c := range exhFor(tier) {
+		parts := 1
+		if c.n >= 5 {
+			parts = l1Parts5
+		}
+		for p := 0; p < parts; p++ {
+			out = append(out, l1ExhCase{c, p, parts})
+		}
+	}
+	return out
+}
+
+var l1ExhQuick, l1ExhThorough = l1ExhCases(fw.Quick), l1ExhCases(fw.Thorough)
+
 func exhFor(tier string) []nm {
 	if tier == fw.Thorough {
 		return exh5
@@ -97,7 +122,7 @@ func exhFor(tier string) []nm {
 }
 
 var baseKinds = []kindDef{
-	{"l1.exhaustive", tiered(len(exh4), len(exh5)), runL1Exhaustive},
+	{"l1.exhaustive", tiered(len(l1ExhQuick), len(l1ExhThorough)), runL1Exhaustive},
 	{"l1.random", tiered(160, 2400), func(c *fw.Ctx, res *fw.Result, idx, local int) {
 		runL1Random(c, res, idx, func(r *rand.Rand) *planSpec { return randomPlain(r, 5, 14) })
 	}},
@@ -317,7 +342,10 @@ func (a *l1acc) finish(res *fw.Result) {
 }
 
 func runL1Exhaustive(c *fw.Ctx, res *fw.Result, idx, local int) {
-	cases := exhFor(c.Tier)
+	cases := l1ExhQuick
+	if c.Tier == fw.Thorough {
+		cases = l1ExhThorough
+	}
 	if local >= len(cases) {
 		res.Inconclusive = "harness: exhaustive index out of range"
 		return
@@ -329,17 +357,19 @@ func runL1Exhaustive(c *fw.Ctx, res *fw.Result, idx, local int) {
 	if cs.n >= 5 {
 		rng := c.Rng(idx, "orders")
 		orders = [][]int{perms[0], perms[len(perms)-1]}
-		for len(orders) < 8 {
+		for len(orders) < 4 {
 			orders = append(orders, perms[rng.IntN(len(perms))])
 		}
 	}
-	for _, idperm := range perms {
+	block := len(perms) / cs.parts
+	idperms := perms[cs.part*block : (cs.part+1)*block]
+	for _, idperm := range idperms {
 		for _, order := range orders {
 			l1Plan(res, acc, dagFromMask(cs.n, cs.mask, idperm, order), false)
 		}
 	}
-	res.Key = fw.HashKey("l1.exhaustive", cs.n, cs.mask)
-	res.Sample = map[string]any{"kind": "l1.exhaustive", "n": cs.n, "mask": cs.mask, "id_assignments": len(perms), "raw_orders": len(orders), "option_sets": len(allOptSets)}
+	res.Key = fw.HashKey("l1.exhaustive", cs.n, cs.mask, cs.part)
+	res.Sample = map[string]any{"kind": "l1.exhaustive", "n": cs.n, "mask": cs.mask, "id_assignments": len(idperms), "id_assignment_block": fmt.Sprintf("%d/%d", cs.part+1, cs.parts), "raw_orders": len(orders), "option_sets": len(allOptSets)}
 	acc.finish(res)
 }
 
